@@ -670,6 +670,14 @@ def c05_stage(out, tier, seed):
     if thorough:
         bins.append(("debug", vc.build_repo("debug")))
     positions = oracle_positions(harness, 60, seed)
+    # positions in which the side to move has exactly one legal move, or a mate in one: searches that are over at once
+    for f in ["6k1/5ppp/8/8/8/8/5PBP/r5K1 w - - 0 1", "7k/8/8/8/8/8/4q3/7K w - - 3 9", "6k1/5ppp/8/8/8/8/8/R6K w - - 0 1",
+              "r1bqkbnr/pppp1ppp/2n5/4p2Q/2B1P3/8/PPPP1PPP/RNB1K1NR w KQkq - 4 4", "8/8/8/8/8/5k2/7r/6K1 w - - 0 1"]:
+        lines = oracle(harness, "legal", ["--fen", f])
+        legal = [x for x in lines if x.startswith("moves ")][0].split()[1:]
+        if "legalpos true" not in lines or not legal:
+            raise RuntimeError(f"hand-written C05 position is not a legal non-terminal position: {f}")
+        positions.extend([{"root": f, "moves": "", "fen": f, "legal": legal}] * 3)
     start_legal = sorted(["a2a3", "a2a4", "b2b3", "b2b4", "c2c3", "c2c4", "d2d3", "d2d4", "e2e3", "e2e4", "f2f3", "f2f4",
                           "g2g3", "g2g4", "h2h3", "h2h4", "b1a3", "b1c3", "g1f3", "g1h3"])
     n_hist = 6000 if thorough else 360
@@ -686,6 +694,9 @@ def c05_stage(out, tier, seed):
         # a second search started inside the first one's bestmove-to-exit window, questions once that window has closed
         ["go depth 1", None, "go infinite", ("isready", 0.09), "stop", None, "isready"],
         ["go depth 1", None, "go infinite", ("isready", 0.0), ("isready", 0.09), "stop", None, "isready"],
+        # a search that is over at once (a single legal move), on the clock, then 'stop' - after the move and before it
+        ["position fen 6k1/5ppp/8/8/8/8/5PBP/r5K1 w - - 0 1", "go wtime 1000 btime 1000", None, "stop", "isready", "go wtime 1000 btime 1000", "stop", None, "isready"],
+        ["position fen 7k/8/8/8/8/8/4q3/7K w - - 3 9", "go movetime 100", "stop", None, "stop", "isready", "go depth 3", None, "stop", "isready"],
     ]
     quit_hist = [["go infinite", "quit"], ["go depth 1", None, "go infinite", "isready", "quit"]]
     for f in fixed:
@@ -697,6 +708,8 @@ def c05_stage(out, tier, seed):
                 c, gap = c if isinstance(c, tuple) else (c, 0.0)
                 k = c.split()[0]
                 steps.append({"cmd": c, "kind": "go" if k == "go" else k, "gap": gap, "infinite": c == "go infinite"})
+                if k == "position":
+                    steps[-1]["pos"] = {"legal": None}
         steps.append({"cmd": "isready", "kind": "isready", "gap": 0.0})
         steps.append({"cmd": "quit", "kind": "quit", "gap": 0.0})
         for d in DELAY_CONFIGS[:3] + [DELAY_CONFIGS[6]]:
